@@ -1,6 +1,856 @@
 package props
 
-import "rjverif/internal/core"
+import (
+	"fmt"
+	"go/constant"
+	"go/token"
+	"go/types"
+	"math/big"
 
-// intervalRules: R05b-d (filled in by the SSA rule library).
-func (x *Ctx) intervalRules(r *core.Result) {}
+	"golang.org/x/tools/go/ssa"
+
+	"rjverif/internal/core"
+)
+
+var (
+	two63   = new(big.Int).Lsh(big.NewInt(1), 63)
+	two64   = new(big.Int).Lsh(big.NewInt(1), 64)
+	maxU64  = new(big.Int).Sub(two64, big.NewInt(1))
+	maxI64  = new(big.Int).Sub(two63, big.NewInt(1))
+	minI64  = new(big.Int).Neg(two63)
+	maxU32  = big.NewInt(1<<32 - 1)
+	maxI32  = big.NewInt(1<<31 - 1)
+	minI32  = big.NewInt(-(1 << 31))
+	bigZero = big.NewInt(0)
+)
+
+func constBig(v ssa.Value) (*big.Int, bool) {
+	c, ok := v.(*ssa.Const)
+	if !ok || c.Value == nil || c.Value.Kind() != constant.Int {
+		return nil, false
+	}
+	b, ok := new(big.Int).SetString(c.Value.ExactString(), 10)
+	return b, ok
+}
+
+// typeRange of a basic integer type on the analysed architecture.
+func (x *Ctx) typeRange(t types.Type) (lo, hi *big.Int, ok bool) {
+	b, isB := t.Underlying().(*types.Basic)
+	if !isB {
+		return nil, nil, false
+	}
+	sz := x.W.Root.TypesSizes.Sizeof(t)
+	bits := uint(sz * 8)
+	if b.Info()&types.IsUnsigned != 0 {
+		return big.NewInt(0), new(big.Int).Sub(new(big.Int).Lsh(big.NewInt(1), bits), big.NewInt(1)), true
+	}
+	if b.Info()&types.IsInteger != 0 {
+		h := new(big.Int).Lsh(big.NewInt(1), bits-1)
+		return new(big.Int).Neg(h), new(big.Int).Sub(h, big.NewInt(1)), true
+	}
+	return nil, nil, false
+}
+
+// pathState: symbolic state along one acyclic path of a loop-free function.
+type pathState struct {
+	lo, hi *big.Int          // interval of the tracked value V (result 0 of the inner reader)
+	holes  int               // disequalities / non-interval constraints on V (make the success set inexact)
+	errNil int               // inner error: 0 unknown, 1 known nil, 2 known non-nil
+	byteEq map[ssa.Value]int // byte comparisons taken (cond value -> 1 true / 2 false)
+}
+
+type retInfo struct {
+	ret     *ssa.Return
+	st      pathState
+	valExpr string // shape of the returned value in terms of V: "V", "-V", "0", "conv(V)", "?"
+	errKind int    // 1 nil for sure, 2 non-nil for sure, 0 the inner error (nil iff errNil==1)
+	conds   []ssa.Value
+	taken   []bool
+}
+
+// enumeratePaths walks all acyclic paths of fn (which must be loop-free apart from unreachable parts).
+func (x *Ctx) enumeratePaths(fn *ssa.Function, V, E ssa.Value, vlo, vhi *big.Int) ([]retInfo, string) {
+	var out []retInfo
+	var problem string
+	type frame struct {
+		b     *ssa.BasicBlock
+		pred  *ssa.BasicBlock
+		st    pathState
+		env   map[ssa.Value]ssa.Value // phi resolution
+		conds []ssa.Value
+		taken []bool
+		depth int
+	}
+	var walk func(f frame)
+	resolve := func(env map[ssa.Value]ssa.Value, v ssa.Value) ssa.Value {
+		for i := 0; i < 20; i++ {
+			if r, ok := env[v]; ok {
+				v = r
+				continue
+			}
+			break
+		}
+		return v
+	}
+	walk = func(f frame) {
+		if problem != "" {
+			return
+		}
+		if f.depth > 200 {
+			problem = "function has loops or is too large for path enumeration"
+			return
+		}
+		env := f.env
+		// phis
+		for _, ins := range f.b.Instrs {
+			phi, ok := ins.(*ssa.Phi)
+			if !ok {
+				break
+			}
+			for k, p := range f.b.Preds {
+				if p == f.pred {
+					ne := map[ssa.Value]ssa.Value{}
+					for a, b := range env {
+						ne[a] = b
+					}
+					ne[phi] = resolve(env, phi.Edges[k])
+					env = ne
+					break
+				}
+			}
+		}
+		last := f.b.Instrs[len(f.b.Instrs)-1]
+		switch t := last.(type) {
+		case *ssa.Return:
+			ri := retInfo{ret: t, st: f.st, conds: f.conds, taken: f.taken}
+			if len(t.Results) > 0 {
+				ri.valExpr = x.valShape(resolve(env, t.Results[0]), V, env, resolve)
+				ev := resolve(env, t.Results[len(t.Results)-1])
+				switch {
+				case isNilConst(ev):
+					ri.errKind = 1
+				case ev == E:
+					ri.errKind = 0
+				case x.knownNonNilError(ev):
+					ri.errKind = 2
+				default:
+					ri.errKind = 3 // unknown
+				}
+			}
+			out = append(out, ri)
+		case *ssa.Jump:
+			walk(frame{f.b.Succs[0], f.b, f.st, env, f.conds, f.taken, f.depth + 1})
+		case *ssa.If:
+			cond := resolve(env, t.Cond)
+			for k := 0; k < 2; k++ {
+				st := f.st
+				feasible := true
+				tk := k == 0
+				// the same condition value decided earlier on this path fixes the branch
+				for i, c := range f.conds {
+					if c == cond && f.taken[i] != tk {
+						feasible = false
+					}
+				}
+				if be, ok := cond.(*ssa.BinOp); ok {
+					l, r := resolve(env, be.X), resolve(env, be.Y)
+					switch {
+					case (l == E && isNilConst(r)) || (r == E && isNilConst(l)):
+						isNE := be.Op == token.NEQ
+						nonNil := isNE == tk
+						want := 1
+						if nonNil {
+							want = 2
+						}
+						if st.errNil != 0 && st.errNil != want {
+							feasible = false
+						}
+						st.errNil = want
+					case l == V || r == V:
+						c, okc := constBig(r)
+						op := be.Op
+						if l != V {
+							c, okc = constBig(l)
+							op = flipOp(op)
+						}
+						if !okc {
+							st.holes++
+						} else {
+							if !tk {
+								op = negOp(op)
+							}
+							lo, hi := new(big.Int).Set(st.lo), new(big.Int).Set(st.hi)
+							switch op {
+							case token.LSS:
+								hi = minBig(hi, new(big.Int).Sub(c, big.NewInt(1)))
+							case token.LEQ:
+								hi = minBig(hi, c)
+							case token.GTR:
+								lo = maxBig(lo, new(big.Int).Add(c, big.NewInt(1)))
+							case token.GEQ:
+								lo = maxBig(lo, c)
+							case token.EQL:
+								lo, hi = maxBig(lo, c), minBig(hi, c)
+							case token.NEQ:
+								st.holes++
+							}
+							st.lo, st.hi = lo, hi
+							if lo.Cmp(hi) > 0 {
+								feasible = false
+							}
+						}
+					}
+				} else if cond == V {
+					st.holes++
+				}
+				if feasible {
+					walk(frame{f.b.Succs[k], f.b, st, env, append(append([]ssa.Value(nil), f.conds...), cond), append(append([]bool(nil), f.taken...), tk), f.depth + 1})
+				}
+			}
+		case *ssa.Panic:
+		default:
+			problem = fmt.Sprintf("unexpected block terminator %T", last)
+		}
+	}
+	walk(frame{b: fn.Blocks[0], st: pathState{lo: vlo, hi: vhi}, env: map[ssa.Value]ssa.Value{}})
+	return out, problem
+}
+
+func flipOp(op token.Token) token.Token {
+	switch op {
+	case token.LSS:
+		return token.GTR
+	case token.LEQ:
+		return token.GEQ
+	case token.GTR:
+		return token.LSS
+	case token.GEQ:
+		return token.LEQ
+	}
+	return op
+}
+
+func negOp(op token.Token) token.Token {
+	switch op {
+	case token.LSS:
+		return token.GEQ
+	case token.LEQ:
+		return token.GTR
+	case token.GTR:
+		return token.LEQ
+	case token.GEQ:
+		return token.LSS
+	case token.EQL:
+		return token.NEQ
+	case token.NEQ:
+		return token.EQL
+	}
+	return op
+}
+
+func minBig(a, b *big.Int) *big.Int {
+	if a.Cmp(b) < 0 {
+		return a
+	}
+	return b
+}
+func maxBig(a, b *big.Int) *big.Int {
+	if a.Cmp(b) > 0 {
+		return a
+	}
+	return b
+}
+
+// valShape describes a returned value in terms of V.
+func (x *Ctx) valShape(v, V ssa.Value, env map[ssa.Value]ssa.Value, resolve func(map[ssa.Value]ssa.Value, ssa.Value) ssa.Value) string {
+	v = resolve(env, v)
+	switch t := v.(type) {
+	case *ssa.Const:
+		if b, ok := constBig(t); ok && b.Sign() == 0 {
+			return "0"
+		}
+		return "const"
+	case *ssa.Convert:
+		in := x.valShape(t.X, V, env, resolve)
+		if in == "V" || in == "conv(V)" {
+			return "conv(V)"
+		}
+		if in == "-V" || in == "-conv(V)" {
+			return "-conv(V)"
+		}
+		return in
+	case *ssa.UnOp:
+		if t.Op == token.SUB {
+			in := x.valShape(t.X, V, env, resolve)
+			switch in {
+			case "V", "conv(V)":
+				return "-conv(V)"
+			}
+			return "?"
+		}
+	}
+	if v == V {
+		return "V"
+	}
+	return "?"
+}
+
+// innerReader finds the single call to another integer reader and its value/error extracts.
+func innerReader(fn *ssa.Function, name string) (call *ssa.Call, V, E ssa.Value) {
+	for _, b := range fn.Blocks {
+		for _, ins := range b.Instrs {
+			if c, ok := ins.(*ssa.Call); ok {
+				if callee := c.Call.StaticCallee(); callee != nil && callee.Name() == name {
+					call = c
+				}
+			}
+		}
+	}
+	if call == nil {
+		return
+	}
+	if ex := extractOf(call, 0); ex != nil {
+		V = ex
+	}
+	if ex := extractOf(call, 2); ex != nil {
+		E = ex
+	}
+	return
+}
+
+// intervalRules: R05b-d.
+func (x *Ctx) intervalRules(r *core.Result) {
+	b := r.Rule("R05b/c", "range guards as intervals: on every return of ReadInt64 / ReadInt32 / ReadUint32 / ReadInt / ReadUint whose error may be nil, the inner reader's value lies exactly in the target type's range (no wrapped or truncated value can be returned, and no in-range value is refused); the returned value is that value converted (negated for a leading '-')")
+	x.readInt64Rule(r, b)
+	x.narrowRule(r, b, "ReadInt32", "ReadInt64", minI32, maxI32)
+	x.narrowRule(r, b, "ReadUint32", "ReadUint64", bigZero, maxU32)
+	// ReadInt / ReadUint: plain conversions of the matching width
+	for _, n := range []string{"ReadInt", "ReadUint"} {
+		x.widthDispatchRule(r, b, n)
+	}
+	r.CheckFloor(b, 5)
+	d := r.Rule("R05d", "numeric side conditions of ReadUint64: each digit-accumulating loop is either bounded to N digits with 10^N-1 <= 2^64-1, or refuses val > c before multiplying and refuses a result smaller than the previous value, with floor((2^64-1)/10) <= c <= floor((2^64-10)/9); the digit added is data[p]-'0' of the cursor byte; the accumulated value is what success returns")
+	x.uint64LoopRule(r, d)
+	r.CheckFloor(d, 2)
+}
+
+func (x *Ctx) readInt64Rule(r *core.Result, rs *core.RuleStat) {
+	fn := x.Func("ReadInt64")
+	if fn == nil {
+		r.Undecided(rs, "ReadInt64", "-", "function not found")
+		return
+	}
+	rs.Instances++
+	_, V, E := innerReader(fn, "ReadUint64")
+	if V == nil || E == nil {
+		r.Undecided(rs, "ReadInt64:inner", x.W.Pos(fn.Pos()), "ReadInt64 does not read its magnitude through ReadUint64 (shape changed)")
+		return
+	}
+	paths, prob := x.enumeratePaths(fn, V, E, bigZero, maxU64)
+	if prob != "" {
+		r.Undecided(rs, "ReadInt64:paths", x.W.Pos(fn.Pos()), prob)
+		return
+	}
+	var posLo, posHi, negLo, negHi *big.Int
+	okAll := true
+	for _, p := range paths {
+		success := p.errKind == 1 || (p.errKind == 0 && p.st.errNil != 2)
+		if !success {
+			continue
+		}
+		if p.errKind == 0 && p.st.errNil == 0 {
+			// returning the inner error untested: then the value must be unconstrained-safe; treat as success path
+		}
+		if p.st.holes > 0 {
+			r.Fail(rs, "ReadInt64:inexact", x.W.Pos(p.ret.Pos()), "a success path depends on a condition on the value that is not a range bound (some in-range values would be refused or mishandled)")
+			okAll = false
+		}
+		switch p.valExpr {
+		case "conv(V)":
+			if p.st.hi.Cmp(maxI64) > 0 {
+				r.Fail(rs, "ReadInt64:positive-range", x.W.Pos(p.ret.Pos()), fmt.Sprintf("a non-negative value up to %s can be returned as int64 (wraps above 2^63-1)", p.st.hi))
+				okAll = false
+			}
+			posLo, posHi = unionLo(posLo, p.st.lo), unionHi(posHi, p.st.hi)
+		case "-conv(V)":
+			if p.st.hi.Cmp(two63) > 0 {
+				r.Fail(rs, "ReadInt64:negative-range", x.W.Pos(p.ret.Pos()), fmt.Sprintf("a magnitude up to %s can be negated into int64 (wraps above 2^63)", p.st.hi))
+				okAll = false
+			}
+			negLo, negHi = unionLo(negLo, p.st.lo), unionHi(negHi, p.st.hi)
+		case "0":
+		default:
+			r.Fail(rs, "ReadInt64:value", x.W.Pos(p.ret.Pos()), "a success path returns something other than the magnitude converted (and negated for '-'): "+p.valExpr)
+			okAll = false
+		}
+	}
+	if posHi == nil || posLo.Sign() != 0 || posHi.Cmp(maxI64) != 0 {
+		r.Fail(rs, "ReadInt64:positive-exact", x.W.Pos(fn.Pos()), fmt.Sprintf("non-negative values accepted are [%v, %v], must be exactly [0, 2^63-1]", posLo, posHi))
+		okAll = false
+	}
+	if negHi == nil || negLo.Sign() != 0 || negHi.Cmp(two63) != 0 {
+		r.Fail(rs, "ReadInt64:negative-exact", x.W.Pos(fn.Pos()), fmt.Sprintf("magnitudes accepted after '-' are [%v, %v], must be exactly [0, 2^63]", negLo, negHi))
+		okAll = false
+	}
+	// the negated return is taken exactly when the '-' was seen: the branch leading to it tests the same boolean that guarded the sign skip
+	if msg := x.signConsistency(fn, paths); msg != "" {
+		r.Fail(rs, "ReadInt64:sign", x.W.Pos(fn.Pos()), msg)
+		okAll = false
+	}
+	if okAll {
+		rs.OK(1)
+		rs.Sample("ReadInt64: magnitude in [0,2^63-1] -> int64(u); after '-' magnitude in [0,2^63] -> -int64(u); nothing else succeeds")
+	}
+}
+
+func unionLo(a, b *big.Int) *big.Int {
+	if a == nil || b.Cmp(a) < 0 {
+		return b
+	}
+	return a
+}
+func unionHi(a, b *big.Int) *big.Int {
+	if a == nil || b.Cmp(a) > 0 {
+		return b
+	}
+	return a
+}
+
+// signConsistency: the success paths returning -V are exactly those on which the boolean `first byte == '-'` is true.
+func (x *Ctx) signConsistency(fn *ssa.Function, paths []retInfo) string {
+	isMinusTest := func(v ssa.Value) bool {
+		be, ok := v.(*ssa.BinOp)
+		if !ok || be.Op != token.EQL {
+			return false
+		}
+		c, ok := constBig(be.Y)
+		if !ok || c.Int64() != '-' {
+			return false
+		}
+		_, isLoad := be.X.(*ssa.UnOp)
+		return isLoad
+	}
+	for _, p := range paths {
+		if !(p.errKind == 1 || (p.errKind == 0 && p.st.errNil != 2)) {
+			continue
+		}
+		neg := -1
+		for i, c := range p.conds {
+			if isMinusTest(c) {
+				v := 0
+				if p.taken[i] {
+					v = 1
+				}
+				if neg != -1 && neg != v {
+					return "inconsistent sign tests along one path"
+				}
+				neg = v
+			}
+		}
+		switch p.valExpr {
+		case "-conv(V)":
+			if neg != 1 {
+				return "a value is negated on a path where no '-' was seen"
+			}
+		case "conv(V)":
+			if neg != 0 {
+				return "a value is returned without negation on a path where '-' was seen"
+			}
+		}
+	}
+	return ""
+}
+
+// narrowRule: outer = T(inner value) with the inner value's success interval exactly [lo, hi].
+func (x *Ctx) narrowRule(r *core.Result, rs *core.RuleStat, outer, inner string, lo, hi *big.Int) {
+	fn := x.Func(outer)
+	if fn == nil {
+		r.Undecided(rs, outer, "-", "function not found")
+		return
+	}
+	rs.Instances++
+	call, V, E := innerReader(fn, inner)
+	if call == nil || V == nil || E == nil {
+		r.Undecided(rs, outer+":inner", x.W.Pos(fn.Pos()), outer+" does not read through "+inner+" (shape changed)")
+		return
+	}
+	ilo, ihi, _ := x.typeRange(V.Type())
+	paths, prob := x.enumeratePaths(fn, V, E, ilo, ihi)
+	if prob != "" {
+		r.Undecided(rs, outer+":paths", x.W.Pos(fn.Pos()), prob)
+		return
+	}
+	var slo, shi *big.Int
+	okAll := true
+	for _, p := range paths {
+		success := p.errKind == 1 || (p.errKind == 0 && p.st.errNil != 2)
+		if !success {
+			continue
+		}
+		if p.errKind == 0 && p.st.errNil == 0 {
+			// the inner error is returned untested on this path: it is a success exactly when the inner reader succeeded
+		}
+		if p.st.holes > 0 {
+			r.Fail(rs, outer+":inexact", x.W.Pos(p.ret.Pos()), "a success path depends on a condition on the value that is not a range bound")
+			okAll = false
+		}
+		switch p.valExpr {
+		case "conv(V)", "V":
+			if p.st.lo.Cmp(lo) < 0 || p.st.hi.Cmp(hi) > 0 {
+				r.Fail(rs, outer+":range", x.W.Pos(p.ret.Pos()), fmt.Sprintf("a value in [%s, %s] can be narrowed on a path whose error may be nil; the target holds [%s, %s] (truncated value returned)", p.st.lo, p.st.hi, lo, hi))
+				okAll = false
+			}
+			slo, shi = unionLo(slo, p.st.lo), unionHi(shi, p.st.hi)
+		case "0":
+			// zero returned: fine only together with an error; with a possibly-nil error it would be a wrong value unless V==0
+			if !(p.st.lo.Sign() == 0 && p.st.hi.Sign() == 0) && p.errKind != 2 {
+				if !(p.errKind == 0 && p.st.errNil == 2) {
+					// possible success with value 0 although V may be non-zero
+					if p.st.errNil != 2 {
+						r.Fail(rs, outer+":zero", x.W.Pos(p.ret.Pos()), "0 is returned on a path whose error may be nil although the value read may be non-zero")
+						okAll = false
+					}
+				}
+			}
+		default:
+			r.Fail(rs, outer+":value", x.W.Pos(p.ret.Pos()), "a success path returns something other than the inner value converted: "+p.valExpr)
+			okAll = false
+		}
+	}
+	if slo == nil || slo.Cmp(lo) != 0 || shi.Cmp(hi) != 0 {
+		r.Fail(rs, outer+":exact", x.W.Pos(fn.Pos()), fmt.Sprintf("values accepted are [%v, %v], must be exactly [%s, %s]", slo, shi, lo, hi))
+		okAll = false
+	}
+	if okAll {
+		rs.OK(1)
+		rs.Sample(fmt.Sprintf("%s: succeeds exactly for %s values in [%s, %s], returned converted", outer, inner, lo, hi))
+	}
+}
+
+// widthDispatchRule: ReadInt / ReadUint return the matching-width reader's value converted without loss.
+func (x *Ctx) widthDispatchRule(r *core.Result, rs *core.RuleStat, name string) {
+	fn := x.Func(name)
+	if fn == nil {
+		r.Undecided(rs, name, "-", "function not found")
+		return
+	}
+	rs.Instances++
+	tlo, thi, _ := x.typeRange(fn.Signature.Results().At(0).Type())
+	okAll := true
+	n := 0
+	for _, b := range fn.Blocks {
+		for _, ins := range b.Instrs {
+			c, ok := ins.(*ssa.Call)
+			if !ok {
+				continue
+			}
+			callee := c.Call.StaticCallee()
+			if callee == nil || !x.W.InLib(callee) || callee.Signature.Results().Len() != 3 {
+				continue
+			}
+			n++
+			slo, shi, _ := x.typeRange(callee.Signature.Results().At(0).Type())
+			if slo.Cmp(tlo) < 0 || shi.Cmp(thi) > 0 {
+				r.Fail(rs, name+":width", x.W.Pos(c.Pos()), fmt.Sprintf("%s's value range [%s, %s] does not fit %s on this architecture", callee.Name(), slo, shi, fn.Signature.Results().At(0).Type()))
+				okAll = false
+			}
+			// results passed through: value converted, offset and error by identity
+			v, off, e := extractOf(c, 0), extractOf(c, 1), extractOf(c, 2)
+			found := false
+			for _, bb := range fn.Blocks {
+				if ret, ok := bb.Instrs[len(bb.Instrs)-1].(*ssa.Return); ok && len(ret.Results) == 3 {
+					cv, isConv := ret.Results[0].(*ssa.Convert)
+					if isConv && v != nil && cv.X == ssa.Value(v) && off != nil && ret.Results[1] == ssa.Value(off) && e != nil && ret.Results[2] == ssa.Value(e) {
+						found = true
+					}
+				}
+			}
+			if !found {
+				r.Fail(rs, name+":passthrough", x.W.Pos(c.Pos()), "the results of "+callee.Name()+" are not returned as (converted value, offset, error)")
+				okAll = false
+			}
+		}
+	}
+	if n == 0 {
+		r.Undecided(rs, name+":inner", x.W.Pos(fn.Pos()), "no inner reader call found")
+		return
+	}
+	if okAll {
+		rs.OK(1)
+		rs.Sample(name + ": value of the matching-width reader converted without loss; offset and error unchanged")
+	}
+}
+
+// uint64LoopRule: R05d.
+func (x *Ctx) uint64LoopRule(r *core.Result, rs *core.RuleStat) {
+	fn := x.Func("ReadUint64")
+	if fn == nil {
+		r.Undecided(rs, "ReadUint64", "-", "function not found")
+		return
+	}
+	cLo := new(big.Int).Div(maxU64, big.NewInt(10))
+	cHi := new(big.Int).Div(new(big.Int).Sub(two64, big.NewInt(10)), big.NewInt(9))
+	type accLoop struct {
+		acc  *ssa.Phi
+		next *ssa.BinOp // acc*10 + digit
+		mul  *ssa.BinOp
+	}
+	var loops []accLoop
+	for _, b := range fn.Blocks {
+		for _, ins := range b.Instrs {
+			phi, ok := ins.(*ssa.Phi)
+			if !ok {
+				break
+			}
+			bt, isB := phi.Type().Underlying().(*types.Basic)
+			if !isB || bt.Kind() != types.Uint64 {
+				continue
+			}
+			for _, e := range phi.Edges {
+				add, ok := e.(*ssa.BinOp)
+				if !ok || add.Op != token.ADD {
+					continue
+				}
+				for _, pair := range [][2]ssa.Value{{add.X, add.Y}, {add.Y, add.X}} {
+					mul, ok := pair[0].(*ssa.BinOp)
+					if !ok || mul.Op != token.MUL {
+						continue
+					}
+					ten, okc := constBig(mul.Y)
+					base := mul.X
+					if !okc {
+						ten, okc = constBig(mul.X)
+						base = mul.Y
+					}
+					if okc && ten.Int64() == 10 && base == ssa.Value(phi) {
+						loops = append(loops, accLoop{phi, add, mul})
+					}
+				}
+			}
+		}
+	}
+	if len(loops) == 0 {
+		r.Undecided(rs, "ReadUint64:loops", x.W.Pos(fn.Pos()), "no digit-accumulating loop (val = val*10 + digit) found: the conversion has a shape this rule cannot judge")
+		return
+	}
+	for i, lp := range loops {
+		rs.Instances++
+		key := fmt.Sprintf("ReadUint64:accumulating loop #%d", i+1)
+		okLoop := true
+		// digit operand: convert(load data[idx]) - 48
+		digit := lp.next.X
+		if digit == ssa.Value(lp.mul) {
+			digit = lp.next.Y
+		}
+		if msg := digitShape(digit); msg != "" {
+			r.Fail(rs, key+":digit", x.W.Pos(lp.next.Pos()), msg)
+			okLoop = false
+		}
+		// checks on this loop: `acc > C -> error` and `next < acc -> error`
+		var cutoff *big.Int
+		var cutoffPos, wrapPos token.Pos
+		hasWrap := false
+		var wrapBad string
+		for _, ref := range *lp.acc.Referrers() {
+			be, ok := ref.(*ssa.BinOp)
+			if !ok {
+				continue
+			}
+			if c, ok := constBig(be.Y); ok && be.X == ssa.Value(lp.acc) && (be.Op == token.GTR || be.Op == token.GEQ) && leadsToErrorReturn(x, be, true) {
+				cutoff = new(big.Int).Set(c)
+				if be.Op == token.GEQ {
+					cutoff.Sub(cutoff, big.NewInt(1))
+				}
+				cutoffPos = be.Pos()
+			}
+		}
+		for _, ref := range *lp.next.Referrers() {
+			be, ok := ref.(*ssa.BinOp)
+			if !ok || !isCmpOp(be.Op) {
+				continue
+			}
+			if !leadsToErrorReturn(x, be, true) && !leadsToErrorReturn(x, be, false) {
+				continue
+			}
+			wrapPos = be.Pos()
+			// must be next < acc (error when true) or equivalent
+			switch {
+			case be.X == ssa.Value(lp.next) && be.Y == ssa.Value(lp.acc) && be.Op == token.LSS && leadsToErrorReturn(x, be, true):
+				hasWrap = true
+			case be.X == ssa.Value(lp.acc) && be.Y == ssa.Value(lp.next) && be.Op == token.GTR && leadsToErrorReturn(x, be, true):
+				hasWrap = true
+			case be.X == ssa.Value(lp.next) && be.Y == ssa.Value(lp.acc) && be.Op == token.GEQ && leadsToErrorReturn(x, be, false):
+				hasWrap = true
+			default:
+				wrapBad = "the wrap-around test after val*10+digit does not compare the new value with the previous value (`newVal < val`): a wrapped product can pass"
+			}
+		}
+		// digit bound of the loop: exit when (cursor - start) == N
+		bound := x.loopDigitBound(lp.acc)
+		switch {
+		case cutoff != nil || hasWrap || wrapBad != "":
+			if wrapBad != "" {
+				r.Fail(rs, key+":wrap-test", x.W.Pos(wrapPos), wrapBad)
+				okLoop = false
+			} else if !hasWrap {
+				r.Fail(rs, key+":wrap-test", x.W.Pos(lp.next.Pos()), "a loop that refuses large values before multiplying lacks the wrap-around test on the result")
+				okLoop = false
+			}
+			if cutoff == nil {
+				r.Fail(rs, key+":cutoff", x.W.Pos(lp.next.Pos()), "the checked loop multiplies without first refusing val > cutoff: the product can wrap more than once and pass the `newVal < val` test")
+				okLoop = false
+			} else if cutoff.Cmp(cLo) < 0 || cutoff.Cmp(cHi) > 0 {
+				r.Fail(rs, key+":cutoff", x.W.Pos(cutoffPos), fmt.Sprintf("values above %s are refused before multiplying; for the wrap test to be exact and no valid uint64 to be refused the threshold must lie in [%s, %s]", cutoff, cLo, cHi))
+				okLoop = false
+			}
+		case bound >= 0:
+			// unchecked loop: at most `bound` digits accumulate from 0
+			lim := new(big.Int).Exp(big.NewInt(10), big.NewInt(int64(bound)), nil)
+			lim.Sub(lim, big.NewInt(1))
+			if lim.Cmp(maxU64) > 0 {
+				r.Fail(rs, key+":digits", x.W.Pos(lp.next.Pos()), fmt.Sprintf("the unchecked loop accumulates up to %d digits; 10^%d-1 does not fit uint64", bound, bound))
+				okLoop = false
+			}
+		default:
+			r.Fail(rs, key+":unbounded", x.W.Pos(lp.next.Pos()), "a digit-accumulating loop has neither a digit-count bound nor overflow checks")
+			okLoop = false
+		}
+		if okLoop {
+			rs.OK(1)
+			if cutoff != nil {
+				rs.Sample(fmt.Sprintf("%s: checked (refuse val > %s, refuse newVal < val)", key, cutoff))
+			} else {
+				rs.Sample(fmt.Sprintf("%s: unchecked, at most %d digits", key, bound))
+			}
+		}
+	}
+	// the first checked loop starts from the unchecked loop's result after exactly `bound` digits: 10^bound-1 <= cutoff is implied by cLo
+	// success returns the accumulated value
+	rs.Instances++
+	okRet := true
+	for _, b := range fn.Blocks {
+		ret, ok := b.Instrs[len(b.Instrs)-1].(*ssa.Return)
+		if !ok || len(ret.Results) != 3 || !isNilConst(ret.Results[2]) {
+			continue
+		}
+		if !x.isAccOrZero(ret.Results[0], loops[0].acc, map[ssa.Value]bool{}) {
+			r.Fail(rs, "ReadUint64:return-value", x.W.Pos(ret.Pos()), "a success return does not return the accumulated value (or the literal 0 for the token `0`)")
+			okRet = false
+		}
+	}
+	if okRet {
+		rs.OK(1)
+	}
+}
+
+func isCmpOp(op token.Token) bool {
+	switch op {
+	case token.EQL, token.NEQ, token.LSS, token.LEQ, token.GTR, token.GEQ:
+		return true
+	}
+	return false
+}
+
+// digitShape: v is convert(load of a []byte element) - '0' (in either order of conversion and subtraction).
+func digitShape(v ssa.Value) string {
+	sub, ok := v.(*ssa.BinOp)
+	if !ok || sub.Op != token.SUB {
+		return "the value added per digit is not `data[p] - '0'`"
+	}
+	c, okc := constBig(sub.Y)
+	if !okc || c.Int64() != '0' {
+		return "the value added per digit does not subtract '0'"
+	}
+	x := sub.X
+	if cv, ok := x.(*ssa.Convert); ok {
+		x = cv.X
+	}
+	ld, ok := x.(*ssa.UnOp)
+	if !ok || ld.Op != token.MUL {
+		return "the value added per digit is not read from the input"
+	}
+	if _, ok := ld.X.(*ssa.IndexAddr); !ok {
+		return "the value added per digit is not an element of the input"
+	}
+	return ""
+}
+
+// leadsToErrorReturn: the If on cond, on its `when` edge, reaches a block that returns a non-nil error directly.
+func leadsToErrorReturn(x *Ctx, cond *ssa.BinOp, when bool) bool {
+	for _, ref := range *cond.Referrers() {
+		iff, ok := ref.(*ssa.If)
+		if !ok {
+			continue
+		}
+		s := iff.Block().Succs[0]
+		if !when {
+			s = iff.Block().Succs[1]
+		}
+		if ret, ok := s.Instrs[len(s.Instrs)-1].(*ssa.Return); ok && len(ret.Results) > 0 {
+			e := ret.Results[len(ret.Results)-1]
+			if !isNilConst(e) && x.knownNonNilError(e) {
+				return true
+			}
+		}
+	}
+	return false
+}
+
+// loopDigitBound: the loop of the accumulator phi exits when (cursor - start) == N; returns N or -1.
+func (x *Ctx) loopDigitBound(acc *ssa.Phi) int {
+	blk := acc.Block()
+	// search the loop body (blocks dominated by the header) for `sub == N` leading out of the loop
+	for _, b := range acc.Parent().Blocks {
+		if !blk.Dominates(b) {
+			continue
+		}
+		iff, ok := b.Instrs[len(b.Instrs)-1].(*ssa.If)
+		if !ok {
+			continue
+		}
+		be, ok := iff.Cond.(*ssa.BinOp)
+		if !ok || be.Op != token.EQL {
+			continue
+		}
+		c, okc := constBig(be.Y)
+		sub, isSub := be.X.(*ssa.BinOp)
+		if !okc || !isSub || sub.Op != token.SUB {
+			continue
+		}
+		// true edge must leave the loop (not dominated by header... or not reaching back): approximate by "true successor does not reach the header without passing it"
+		if !blockReaches(b.Succs[0], blk, b.Succs[0].Instrs[0], blk.Instrs[0]) || !blk.Dominates(b.Succs[0]) {
+			return int(c.Int64())
+		}
+	}
+	return -1
+}
+
+func (x *Ctx) isAccOrZero(v ssa.Value, acc *ssa.Phi, seen map[ssa.Value]bool) bool {
+	if seen[v] {
+		return true
+	}
+	seen[v] = true
+	if b, ok := constBig(v); ok {
+		return b.Sign() == 0
+	}
+	phi, ok := v.(*ssa.Phi)
+	if !ok {
+		// val*10+digit of an accumulator
+		if add, ok := v.(*ssa.BinOp); ok && add.Op == token.ADD {
+			if mul, ok := add.X.(*ssa.BinOp); ok && mul.Op == token.MUL {
+				return x.isAccOrZero(mul.X, acc, seen)
+			}
+		}
+		return false
+	}
+	bt, isB := phi.Type().Underlying().(*types.Basic)
+	if !isB || bt.Kind() != types.Uint64 {
+		return false
+	}
+	for _, e := range phi.Edges {
+		if !x.isAccOrZero(e, acc, seen) {
+			return false
+		}
+	}
+	return true
+}
